@@ -60,6 +60,19 @@ def trimRow (row : List Rat) (npts : Nat) (sis : Int) : Except ErrKind (List Rat
     let s ← assignBroadcast (npts - lead) (pySlice row none (some ((npts : Int) - sis)))
     pure (List.replicate lead 0 ++ s)
 
+/-- `sis`: `start_shift - surf_to_depth_shifts` when `start`, zeros otherwise (`trim` only);
+`start_shift = int(s2s_travel_time / dt)` -/
+def trimSis (tts : List Rat) (dt : Rat) (start : Bool) (stt : Rat) : List Int :=
+  if start then (s2dShifts tts dt).map (truncZ (stt / dt) - ·) else (s2dShifts tts dt).map (fun _ => 0)
+
+/-- the row length of the array `trim_to_length` builds: `npts + extras` for `start ∧ ¬trim`, else `npts` -/
+def trimWidth (npts : Nat) (tts : List Rat) (dt : Rat) (trim start : Bool) (stt : Rat) : Except ErrKind Nat :=
+  if start && !trim then
+    match trimExtras (trimSis tts dt start stt) (s2dShifts tts dt) with
+    | .error e => .error e
+    | .ok ex => .ok (npts + ex)
+  else .ok npts
+
 /-- `trim_to_length(values, npts, surf2depth_travel_times, dt, trim, start, s2s_travel_time)`.
 
 | `start` | `trim` | `sis`                           | output length                         |
@@ -74,17 +87,17 @@ array with `start ∧ ¬trim` (`np.max`), and whenever a source slice does not h
 (NumPy "could not broadcast input array"; a length-1 source *is* broadcast); `IndexError` when `values` has fewer
 rows than travel times. -/
 def trimToLength (values : List (List Rat)) (npts : Nat) (tts : List Rat) (dt : Rat)
-    (trim start : Bool) (stt : Rat) : Except ErrKind (List (List Rat)) := do
-  if dt = 0 then .error .ZeroDivisionError else
-  let s2d := s2dShifts tts dt
-  let startShift := truncZ (stt / dt)
-  if !start && !trim then pure values else
-  let sis : List Int := if start then s2d.map (startShift - ·) else s2d.map (fun _ => 0)
-  let npts' ← if start && !trim then (do let ex ← trimExtras sis s2d; pure (npts + ex)) else pure npts
-  (List.range s2d.length).mapM (fun i =>
-    match values[i]? with
-    | none => .error .IndexError
-    | some row => trimRow row npts' (sis.getD i 0))
+    (trim start : Bool) (stt : Rat) : Except ErrKind (List (List Rat)) :=
+  if dt = 0 then .error .ZeroDivisionError
+  else if !start && !trim then .ok values
+  else
+    match trimWidth npts tts dt trim start stt with
+    | .error e => .error e
+    | .ok w =>
+      (List.range tts.length).mapM (fun i =>
+        match values[i]? with
+        | none => .error .IndexError
+        | some row => trimRow row w ((trimSis tts dt start stt).getD i 0))
 
 /-! ### the shifted waves -/
 
